@@ -124,7 +124,7 @@ package zapcore
 // loss (full-range casts; floats through their bit patterns); a failing marshaler / Stringer / error /
 // reflected value costs exactly one extra "<key>Error" string member, written after that call.
 //@ func (zapcore.Field).AddTo
-//@   props C10 C01 C02
+//@   props C10 C01 C02 C03
 //@   flags nopanic propagates-panics
 //@   requires enc != nil && encObj(enc) && wfEnc(f)
 //@   track ERR = invoke zapcore.ObjectEncoder.AddString
